@@ -125,7 +125,7 @@ ADDENDA = {
  'C10': ' Catalogue additions: dfa(repeat) around a symbol-restricted two-state sub-grammar with an incomplete intermediate element; encapsulation payloads of 32767..65000 bytes; a run whose first symbol was pushed back onto a fresh source; the declared end of an unrecognized CPF item is a hard bound.',
  'C11': ' Latin-1-range symbols (one byte in ISO-8859-1, two in UTF-8) in the multi-byte alphabet; half of the machines are built with a regex_context and the storage location is checked.',
  'C12': ' One materialised operation list is issued again under every setting (a caller\'s list is not consumed). Text clause also covers get_attribute.attribute_operations (un-cast integers are SINT, @c/i/a reads one attribute, @c/i all) and the format/parse round trip of numeric paths that skip a level.',
- 'C03': ' One request in eight comes from the boundary generator of C05 (refused requests must change nothing either); a TCP engine runs the same histories against enip.main.main() with generated command lines.',
+ 'C03': ' One request in eight comes from the boundary generator of C05 (refused requests must change nothing either); a TCP engine runs the same histories against enip.main.main() with generated command lines. A few histories run on one 40000-element tag at start indices around 32768 (upper half of the 16-bit element segment).',
  'C04': ' Fill values keep extreme anchors extreme at every index (ULINT >= 2**63, LINT near its minimum).',
  'C05': ' Set Attribute Single payloads with 1..size-1 stray or missing bytes.',
  'C06': ' A quarter of the shards run against --size N (over-size requests: one reply with a non-zero encapsulation status) and a quarter against --route-path; bundle members address other objects and are judged member by member; a client-context clause drives the library client collect() with arbitrary sender contexts; Forward Open / Large Forward Open / Forward Close in the sequences; a positive test that Unregister ends the session; a routed clause (router rig: second simulator behind the stalling relay, DESIGN 9.7).',
